@@ -1181,6 +1181,38 @@ impl Work {
                 },
             );
         }
+        // programs that took two passes to settle (side observations of round 6), under the call styles
+        let settle: [&str; 12] = [
+            "if ((a and b)) then\n  f()\nend\n",
+            "while (((a and b))) do\n  f()\nend\n",
+            "repeat f() until ((a and b))\n",
+            "if ((a)) -- c\n then f() end\n",
+            "local x = (y) -- c   \n",
+            "local x =\n--[[c]]\nvalue\n",
+            "print \"aaaaaaaaaaaaaaaaaaaaaaaaaaaaaaaaaaaaaaaaaaaaaaaaaaaaaaaaaaaaaaaaaaaaaaaaaaaaaaaaaaaaaaaaaaaaaaaaaaaaaaaaaaaaaaaaaaaaaaaaaaaaaaaaaaa\"\n",
+            "foo((\"bar\"))\n",
+            "foo(({1}))\n",
+            "for k in pairs(({ aaaaaaaaaaaaaaaaaaaaaaaaaaaaaaaaaaaaaaaaaaaaaaaaaaaaaaaaaaaaaa, bbbbbbbbbbbbbbbbbbbbbbbbbbbbbbbbbbbbbbbbbbbbbbbbbbbbbbbbbbbbbbbbbbbbbbbbbbb })) do end\n",
+            "return ((f()))\n",
+            "x = ((a))\n",
+        ];
+        for (k, p) in settle.iter().enumerate() {
+            for cp in ["Always", "None", "NoSingleString", "NoSingleTable", "Input"] {
+                let mut c = Cfg::with_syntax("Lua51");
+                c.call_parentheses = cp;
+                f(
+                    ctx,
+                    &Eval {
+                        id: format!("tiny:settle:{k}:{cp}"),
+                        src: p.to_string(),
+                        cfg: c,
+                        range: None,
+                        pinned: true,
+                        presig: None,
+                    },
+                );
+            }
+        }
         for (k, p) in progs.iter().enumerate() {
             for syntax in ["Lua51", "Luau", "All"] {
                 for le in ["Unix", "Windows"] {
